@@ -20,6 +20,7 @@ SPEC = os.path.join(VERIF, "spec")
 HARN = os.path.join(VERIF, "harness")
 TLAJARS = "/opt/veriftools/tla/tla2tools.jar:/opt/veriftools/tla/CommunityModules-deps.jar"
 NCPU = os.cpu_count() or 4
+COVERAGE = os.environ.get("VERIF_COVERAGE")            # directory that receives <check>/<file>.c.gcov (measurement runs only)
 
 BASE_CFLAGS = ["-std=gnu99", "-fPIC", "-DCELLO_NSTRACE", "-g", "-w"]
 
@@ -40,7 +41,23 @@ def workdir(tag="cv"):
     return d
 
 
+def _collect_coverage():
+    tag = os.path.basename(sys.argv[0]) + "_" + "_".join(sys.argv[1:3])
+    for wd in _workdirs:
+        for d in glob.glob(os.path.join(wd, "*")):
+            if not glob.glob(os.path.join(d, "*.gcda")):
+                continue
+            out = os.path.join(COVERAGE, re.sub(r"[^A-Za-z0-9_]", "_", tag), os.path.basename(d))
+            os.makedirs(out, exist_ok=True)
+            subprocess.run("cd %s && gcov -o . src/*.c > /dev/null 2>&1; cp *.c.gcov %s/ 2>/dev/null" % (d, out), shell=True)
+
+
 def _cleanup():
+    if COVERAGE:
+        try:
+            _collect_coverage()
+        except Exception as e:       # measurement only
+            print("coverage collection failed: %s" % e)
     if os.environ.get("VERIF_KEEP"):
         return
     for d in _workdirs:
@@ -101,6 +118,8 @@ def build_lib(wd, name="lib", cc="gcc", extra=(), opt="-O0", exclude=()):
         shutil.copytree(os.path.join(REPO, "include"), inc)
     files = sorted(glob.glob(os.path.join(src, "*.c")))
     objs = {}
+    if COVERAGE and "--coverage" not in extra:
+        extra = tuple(extra) + ("--coverage",)          # tools/apicover.sh: which library lines do the checks execute at all?
 
     def one(f):
         o = os.path.join(d, os.path.basename(f)[:-2] + ".o")
@@ -134,6 +153,8 @@ def build_harness_wb(lib, sources, out, whitebox, notes=None, **kw):
     """Harness with a white-box seam (#include "src/X.c"); if the seam no longer compiles against the
     working tree (refactored internals) fall back to the black-box build: fewer observations, no alarm."""
     try:
+        if COVERAGE:
+            raise ToolError("coverage run: every library file is compiled as its own object")
         return build_harness(lib, sources, out, whitebox=whitebox, **kw)
     except ToolError as e:
         if notes is not None:
